@@ -331,6 +331,9 @@ SCRIPTLET_SETTERS = ("pre_install_script", "post_install_script", "pre_uninstall
                      "pre_untrans_script", "post_untrans_script")
 
 
+SPECIAL_MODES = (0o104755, 0o102755, 0o101777)
+
+
 def scenario(name):
     """(files, setters, caps) of a named builder scenario; files: (destination, user, group, caps text or None)"""
     if name == "empty":
@@ -342,6 +345,9 @@ def scenario(name):
         return [("/d/gr\u00fc\u00dfe".encode(), b"root", b"root", None), (b"/d/z", b"root", b"root", None)], [], None
     if name == "scriptlets":
         return [], [(sn, [_scriptlet(b"echo " + sn.encode()[:3], prog=[b"/bin/sh", b"-e"], flags=1)]) for sn in SCRIPTLET_SETTERS], None
+    if name == "modes":
+        # setuid / setgid / sticky bits: the archive's mode field must agree with RPMTAG_FILEMODES
+        return [(b"/d/a", b"root", b"root", None), (b"/d/b", b"root", b"root", None), (b"/d/c", b"root", b"root", None)], [], None
     if name == "scriptlets_plain":
         return [], [(sn, [_scriptlet(b"true")]) for sn in SCRIPTLET_SETTERS], None
     if name == "deps":
@@ -437,7 +443,7 @@ def c09_build(ctx, name):
             b = e.call_fn(ctx.impl_fn(sn, None, "PackageBuilder"), [b] + list(args))
         cell = Cell(b)
         for i, (dest, user, group, caps) in enumerate(files_spec):
-            fo = file_options(dest, user, group)
+            fo = file_options(dest, user, group, mode=(SPECIAL_MODES[i] if name == "modes" else 0o100644))
             if caps is not None:
                 fo.fields[7] = intrinsics3.some(Adt("FileCaps", "FileCaps", [string(caps)]))
             r = e.call_fn(add, [Ref(cell), VecV([Int(inp["c"][i], "u8")]), Adt("Timestamp", "Timestamp", [Int(inp["mt"][i], "u32")]), fo])
@@ -540,7 +546,7 @@ def replay_c09build(ctx, fl):
     return why is not None, "real crate: scenario %s built through the public API: %s" % (fl["scenario"], why or "structurally valid")
 
 
-for _sn in ("empty", "files2", "files2_gzip", "files2_xz", "files2_bzip2", "files2_zstd", "utf8name", "scriptlets", "scriptlets_plain", "deps", "caps_first", "caps_last") + tuple("dep_" + k for k in DEP_SETTERS):
+for _sn in ("empty", "files2", "files2_gzip", "files2_xz", "files2_bzip2", "files2_zstd", "utf8name", "modes", "scriptlets", "scriptlets_plain", "deps", "caps_first", "caps_last") + tuple("dep_" + k for k in DEP_SETTERS):
     HARNESSES["c09_build_" + _sn] = (lambda n: (lambda ctx: c09_build(ctx, n)))(_sn)
 REPLAYERS["c09"] = (lambda prev: (lambda ctx, fl: replay_c09build(ctx, fl) if fl.get("kind") == "c09build" else prev(ctx, fl)))(REPLAYERS["c09"])
 
